@@ -370,10 +370,22 @@ fn run_bump<'b>(w: &mut World<'b>, op: &Op) -> Obs {
             }
             Op::IntoSlice(k) => {
                 let old = std::mem::replace(&mut v, BVec::new_in(bump));
+                // the slice must stay what it was while the arena keeps allocating: fill the arena with
+                // other blocks after the conversion and read the slice again; writes through the
+                // mutable slice must not land in those blocks either
+                fn churn<'x>(b: &'x Bump) -> Vec<&'x mut [u8]> { (0..6).map(|i| b.alloc_slice_fill_copy(24 + 40 * i, 0xC3u8)).collect() }
                 let idsv = match k {
-                    0 => ids!(old.into_bump_slice()),
-                    1 => ids!(old.into_bump_slice_mut()),
-                    _ => { let b = old.into_boxed_slice(); let i = ids!(b); std::mem::forget(b); i }
+                    0 => { let sl = old.into_bump_slice(); let first = ids!(sl); let blocks = churn(bump); let again = ids!(sl);
+                           if first != again || blocks.iter().any(|b| b.iter().any(|x| *x != 0xC3)) { println!("X into_bump_slice changed by later allocations {:?} -> {:?}", first, again); }
+                           first }
+                    1 => { let sl = old.into_bump_slice_mut(); let first = ids!(sl); let blocks = churn(bump);
+                           for t in sl.iter_mut() { let id = t.id; t.id = id; }
+                           let again = ids!(sl);
+                           if first != again || blocks.iter().any(|b| b.iter().any(|x| *x != 0xC3)) { println!("X into_bump_slice_mut changed by later allocations {:?} -> {:?}", first, again); }
+                           first }
+                    _ => { let b = old.into_boxed_slice(); let first = ids!(b); let blocks = churn(bump); let again = ids!(b);
+                           if first != again || blocks.iter().any(|b| b.iter().any(|x| *x != 0xC3)) { println!("X into_boxed_slice changed by later allocations {:?} -> {:?}", first, again); }
+                           std::mem::forget(b); first }
                 };
                 (format!("ids:{}", show_ids(&idsv)), true)
             }
@@ -1066,6 +1078,27 @@ fn grid() {
                 if vb.as_slice() != vs.as_slice() || !ve.is_empty() { bad += 1; println!("Q vec_macro_list | {:?} | {:?}", vb, vs); }
             }
             println!("Q vec_traits_sweep | {} | same", if bad == 0 { "same".to_string() } else { format!("{}_cases_differ", bad) });
+        }
+        // Option / Result with an early None / Err from a source whose lower size hint is huge (a
+        // repeat-like source): std answers None / Err(e) without reserving anything
+        {
+            struct Big { left: usize, hint: usize }
+            impl Iterator for Big {
+                type Item = u32;
+                fn next(&mut self) -> Option<u32> { if self.left == 0 { None } else { self.left -= 1; Some(self.left as u32) } }
+                fn size_hint(&self) -> (usize, Option<usize>) { (self.hint, None) }
+            }
+            for hint in [usize::MAX, usize::MAX / 2, 1usize << 45] {
+                for stop in [0usize, 2] {
+                    let so: Option<Vec<u32>> = Big { left: 5, hint }.enumerate().map(|(i, x)| if i == stop { None } else { Some(x) }).collect();
+                    let sr: Result<Vec<u32>, usize> = Big { left: 5, hint }.enumerate().map(|(i, x)| if i == stop { Err(i) } else { Ok(x) }).collect();
+                    let bo = catch_unwind(AssertUnwindSafe(|| { let b = Bump::new(); let r: Option<BVec<u32>> = Big { left: 5, hint }.enumerate().map(|(i, x)| if i == stop { None } else { Some(x) }).collect_in(&b); r.map(|v| v.to_vec()) }));
+                    let br = catch_unwind(AssertUnwindSafe(|| { let b = Bump::new(); let r: Result<BVec<u32>, usize> = Big { left: 5, hint }.enumerate().map(|(i, x)| if i == stop { Err(i) } else { Ok(x) }).collect_in(&b); r.map(|v| v.to_vec()) }));
+                    let bb = catch_unwind(AssertUnwindSafe(|| { let b = Bump::new(); let r: Option<bumpalo::boxed::Box<[u32]>> = Big { left: 5, hint }.enumerate().map(|(i, x)| if i == stop { None } else { Some(x) }).collect_in(&b); r.map(|v| v.to_vec()) }));
+                    let same = matches!(&bo, Ok(x) if *x == so) && matches!(&br, Ok(x) if *x == sr) && matches!(&bb, Ok(x) if *x == so);
+                    if !same { println!("Q collect_early_stop_huge_hint hint={} stop={} | option:{} result:{} boxed:{} | none_or_err", hint, stop, if bo.is_err() { "panic" } else { "differs_or_ok" }, if br.is_err() { "panic" } else { "differs_or_ok" }, if bb.is_err() { "panic" } else { "differs_or_ok" }); }
+                }
+            }
         }
         let st: String = "aé€𝄞z".chars().collect();
         let bs: bumpalo::collections::String = "aé€𝄞z".chars().collect_in(&bump);
